@@ -13,8 +13,8 @@ predicates used as hypotheses, and the exception classes `D16_*`.
                      brackets: the state in which each physical line *starts*.  An own-line comment may be
                      inserted before a line without touching the token stream iff that line starts in state
                      `code` (validated against CPython on every run: stream `spec-lex`).
-* `significant`    — the characters of a file that reach the token stream (comments and blank/comment-only
-                     lines removed, string contents kept); `insert_comment_preserves_tokens` is stated on it.
+* `lexTrace`       — the physical lines that reach the token stream with their start states (comment-only
+                     lines at a safe start removed); `insert_comment_preserves_tokens_partial` is stated on it.
 * `specFinal`      — the file `--add-ignores` should end with: one `ignore[code]` comment, indented like its
                      target, directly above every line that carries a diagnostic.
 * `specRange`      — the lines of a statement: `lineno … end_lineno`.
@@ -188,7 +188,8 @@ def scan : Mode → Line → Mode
 /-- The state of the next line's start, from the mode at the end of this line. -/
 def Mode.atEol : Mode → Lex
   | .code d => .code d
-  | .bslash d => .cont d
+  | .bslash 0 => .cont 0
+  | .bslash (d + 1) => .code (d + 1)       -- inside brackets backslash-newline is plain white space
   | .comment d => .code d
   | .str q true d => .triple q d
   | .str _ false d => .code d              -- unterminated literal: a syntax error in Python
@@ -218,7 +219,7 @@ def insideStringAt (lines : List Line) (p : Nat) : Bool :=
 /-- A comment line inserted before line `p` cuts a backslash continuation outside brackets. -/
 def afterBackslashAt (lines : List Line) (p : Nat) : Bool :=
   match lexStateAt lines p with
-  | .cont 0 => true
+  | .cont _ => true
   | _ => false
 
 /-- **Class `insideString`**: a diagnostic on a line that starts inside a string literal (a replacement
@@ -229,6 +230,21 @@ def D16_insideString (lines : List Line) (raw : List Diag) : Bool := raw.any fun
 /-- **Class `afterBackslash`**: a diagnostic on a line that continues the previous one after a backslash
 (outside brackets): the inserted comment line breaks the logical line — the file no longer parses. -/
 def D16_afterBackslash (lines : List Line) (raw : List Diag) : Bool := raw.any fun d => afterBackslashAt lines d.line
+
+/-- A comment-only line may stand where a physical line starts in this state: between tokens (a
+backslash continuation *inside brackets* counts as such, see `Mode.atEol`). -/
+def Lex.safeStart : Lex → Bool
+  | .code _ => true
+  | _ => false
+
+/-- The physical lines that reach the token stream, each with the lexer state it starts in: comment-only
+lines at a safe start are dropped (the tokenizer produces only `COMMENT`/`NL` for them, which the parser
+never sees). Two files with the same trace have the same token stream. -/
+def lexTrace : Lex → List Line → List (Lex × Line)
+  | _, [] => []
+  | st, l :: ls =>
+    if st.safeStart && isCommentLine l then lexTrace (scanLine st l) ls
+    else (st, l) :: lexTrace (scanLine st l) ls
 
 /-! ## Statement ranges (`replace_node` / `remove_node`) -/
 
@@ -257,6 +273,9 @@ structure FixCase where
   soleInBlock : Bool
   /-- the statement is an `elif` clause (an `If` that is the whole `orelse` of its parent, written `elif`) -/
   isElif : Bool
+  /-- the rewritten expression is `"…" % x` with a `%d` conversion, or with a single argument that is not
+  a tuple display (so that a tuple value would be unpacked by `%` but not by an f-string) -/
+  pctRisky : Bool := false
   deriving Repr
 
 /-- **Class `sharedLine`**: whole lines are replaced, so everything else on them is lost. -/
@@ -267,5 +286,9 @@ def D16_emptyBlock (c : FixCase) : Bool := c.adds == some [] && c.soleInBlock
 
 /-- **Class `elifHeader`**: the `elif` clause is re-generated from its `If` node as a new `if` statement. -/
 def D16_elifHeader (c : FixCase) : Bool := c.isElif && (match c.adds with | some (_ :: _) => true | _ => false)
+
+/-- **Class `fstringConversion`**: `use_fstrings` turns `"%d" % x` into `f"{x}"` (no `int()` truncation:
+`"%d" % 2.5 == "2"`, `"%d" % True == "1"`) and `"%s" % t` into `f"{t}"` (a tuple `t` is no longer unpacked). -/
+def D16_fstringConversion (c : FixCase) : Bool := c.pctRisky && (match c.adds with | some (_ :: _) => true | _ => false)
 
 end Pya.C16
